@@ -334,16 +334,116 @@ def exc_name(exc):
 ALL_MASKS = (0x01, 0x02, 0x04, 0x08, 0x10, 0x20, 0x40, 0x80, 0xFF)
 
 
-def enumerate_targets(log, masks, stride, phase):
+KNOWN_TYPES = (1, 2, 4, 5, 8, 11, 13, 15, 20, 24, 25, 254)
+
+
+def is_length_field(name: str) -> bool:
+    return name == "msg_length" or name.endswith("_length") or name.endswith(".length")
+
+
+def auth_length(mtype: int, name: str) -> bool:
+    """length bytes that delimit an authenticated value: Finished / CertificateVerify header and signature
+    length, PSK binder lengths -> all 255 masks even in the quick tier"""
+    return (mtype in (15, 20) and name in ("msg_length", "signature_length")) or name in ("psk.binder_length", "psk.binders_length")
+
+
+def masks_for(name: str, value: int, base, full: bool):
+    """XOR masks for one byte. Handshake-header bytes and every located length field get the masks
+    that matter for them: full=True -> all 255; otherwise the base masks plus EVERY mask that makes a
+    length byte smaller (all shortenings of the authenticated value / enclosing vector) and, for the
+    type byte, every mask that turns it into another known handshake type."""
+    if name == "msg_type":
+        if full:
+            return range(1, 256)
+        return sorted(set(base) | {value ^ t for t in KNOWN_TYPES if t != value})
+    if is_length_field(name):
+        if full:
+            return range(1, 256)
+        return sorted(set(base) | {m for m in range(1, 256) if (value ^ m) < value})
+    return base
+
+
+def small_values(v: int):
+    """smaller values tried for a multi-byte length field whose value needs more than one byte changed"""
+    if v <= 64:
+        return list(range(v))
+    c = set(range(0, 5)) | {8, 16, 31, 32, 33, 47, 48, 49, 63, 64, 65, 127, 128, 255, 256, v // 2, v - 3, v - 2, v - 1}
+    return sorted(x for x in c if 0 <= x < v)
+
+
+TRUNC_FIELD = {20: "body", 15: "signature", 1: "psk.binder"}
+TRUNC_FIXUPS = {
+    20: ["msg_length"],
+    15: ["signature_length", "msg_length"],
+    1: ["psk.binder_length", "psk.binders_length", "pre_shared_key.length", "extensions_length", "msg_length"],
+}
+
+
+def truncate_value(msg: bytes, new_len: int):
+    """Finished.verify_data / CertificateVerify.signature / the PSK binder cut to new_len bytes with every
+    enclosing length field fixed up consistently. Returns None when not applicable."""
+    t = msg[0]
+    fl = fields(msg)
+    loc = {}
+    for s, e, n in fl:
+        loc[n] = (s, e)  # last occurrence
+    name = TRUNC_FIELD.get(t)
+    if name is None or name not in loc:
+        return None
+    s, e = loc[name]
+    if new_len == e - s:
+        return None
+    delta = (e - s) - new_len  # negative: the value is extended with zero bytes
+    b = bytearray(msg)
+    for n in TRUNC_FIXUPS[t]:
+        fs, fe = loc[n]
+        b[fs:fe] = (int.from_bytes(b[fs:fe], "big") - delta).to_bytes(fe - fs, "big")
+    if delta > 0:
+        del b[s + new_len : e]
+    else:
+        b[e:e] = bytes(-delta)
+    return bytes(b)
+
+
+def set_field(msg: bytes, field_index: int, value: int):
+    fl = fields(msg)
+    if field_index >= len(fl):
+        return None
+    s, e, n = fl[field_index]
+    if not is_length_field(n) or int.from_bytes(msg[s:e], "big") == value or value >= 1 << (8 * (e - s)):
+        return None
+    return msg[:s] + value.to_bytes(e - s, "big") + msg[e:]
+
+
+def enumerate_targets(log, masks, stride, phase, full=False):
+    """targets: [k, pos, mask] XOR of one byte | [k, "trunc", new_len] | [k, "set", field_index, value]"""
     out = []
     for k, _snd, mtype, length, msg in log:
         if mtype == 4:  # NewSessionTicket is post-handshake, not in the property's list
             continue
+        fl = fields(msg)
+        name_at = {}
+        for s, e, n in fl:
+            for p in range(s, e):
+                name_at[p] = n
         bnd = boundaries(msg) if stride > 1 else ()
         for pos in range(length):
-            if stride <= 1 or pos in bnd or pos % stride == phase:
-                for m in masks:
+            n = name_at.get(pos, "?")
+            special = n == "msg_type" or is_length_field(n)
+            if special or stride <= 1 or pos in bnd or pos % stride == phase:
+                for m in masks_for(n, msg[pos], masks, full or auth_length(mtype, n)):
                     out.append((k, pos, m))
+        for fi, (s, e, n) in enumerate(fl):
+            v = int.from_bytes(msg[s:e], "big")
+            if is_length_field(n) and e - s >= 2 and v >= 256:
+                for x in small_values(v):
+                    out.append((k, "set", fi, x))
+        tf = TRUNC_FIELD.get(mtype)
+        for s, e, n in fl:
+            if n == tf:
+                for new_len in list(range(e - s)) + [e - s + 1, e - s + 16]:
+                    out.append((k, "trunc", new_len))
+                break
     return out
 
 
@@ -376,23 +476,38 @@ def a_flip(batch, res):
     targets = batch.get("targets")
     if targets is None:
         stride = batch.get("stride", 1)
-        allt = enumerate_targets(log, batch.get("masks") or MASKS, stride, batch.get("seed", 0) % max(stride, 1))
+        allt = enumerate_targets(log, batch.get("masks") or MASKS, stride, batch.get("seed", 0) % max(stride, 1), full=bool(batch.get("full_length_masks")))
         targets = allt[batch.get("shard", 0) :: batch.get("nshards", 1)]
         res.maxc("a_targets_total:" + name, len(allt))
     types_by_k = {k: mtype for k, _s, mtype, _l, _m in log}
-    for k, pos, mask in targets:
+    for tgt in targets:
+        tgt = list(tgt)
+        k = tgt[0]
         cl, sv = build_pair(cfg, store, resume=psk)
         info = {}
 
-        def mangle(i, snd, msg, k=k, pos=pos, mask=mask, info=info, cl=cl, sv=sv):
-            if i != k:
+        def mangle(i, snd, msg, tgt=tgt, info=info, cl=cl, sv=sv):
+            if i != tgt[0]:
                 return msg
             rcv = sv if snd is cl else cl
-            p = min(pos, len(msg) - 1)
-            b = bytearray(msg)
-            b[p] ^= mask
-            info.update(receiver=rcv, sender=snd, mtype=msg[0], pos=p, field=field_at(msg, p), before=rcv.complete(), length=len(msg))
-            return bytes(b)
+            if tgt[1] == "trunc":
+                out = truncate_value(msg, tgt[2])
+                p, fld, how = tgt[2], TRUNC_FIELD.get(msg[0], "?") + ":resized", "value resized to %d bytes, enclosing lengths fixed up" % tgt[2]
+            elif tgt[1] == "set":
+                out = set_field(msg, tgt[2], tgt[3])
+                fl = fields(msg)
+                p = fl[tgt[2]][0] if tgt[2] < len(fl) else 0
+                fld, how = field_at(msg, p) + ":set", "length field set to %d" % tgt[3]
+            else:
+                p = min(tgt[1], len(msg) - 1)
+                b = bytearray(msg)
+                b[p] ^= tgt[2]
+                out, fld, how = bytes(b), field_at(msg, p), "byte XORed with 0x%02x" % tgt[2]
+            if out is None:
+                info.update(skip=True)
+                return msg
+            info.update(receiver=rcv, sender=snd, mtype=msg[0], pos=p, field=fld, how=how, before=rcv.complete(), length=len(msg))
+            return out
 
         pump(cl, sv, mangle)
         res.evaluations += 1
@@ -400,6 +515,11 @@ def a_flip(batch, res):
             # the reference schedule had this delivery, this run did not reach it
             res.count("a_target_not_reached")
             continue
+        if info.get("skip"):
+            res.count("a_target_not_applicable")  # e.g. this run's signature is shorter than the requested truncation
+            continue
+        kind = tgt[1] if isinstance(tgt[1], str) else "xor"
+        res.count("a_alterations_" + kind)
         rcv, snd = info["receiver"], info["sender"]
         mname = HS_NAMES.get(info["mtype"], str(info["mtype"]))
         res.count("a_alterations")
@@ -411,13 +531,13 @@ def a_flip(batch, res):
             both = snd.complete()
             res.violation(
                 "a:receiver-completes:%s-altered:%s:%s" % (mname, rcv.name, "psk" if psk else "full"),
-                "%s accepted a %s whose byte %d (%s) was XORed with 0x%02x and reached %s (1-RTT receive secret released: %s); "
+                "%s accepted a %s altered at %d (%s: %s) and reached %s (1-RTT receive secret released: %s); "
                 "sender side %s; secrets %s"
-                % (rcv.name, mname, info["pos"], info["field"], mask, rcv.state(),
+                % (rcv.name, mname, info["pos"], info["field"], info["how"], rcv.state(),
                    any(x[0] == "DECRYPT" and x[1] == "ONE_RTT" for x in rcv.keys), snd.state(),
                    "identical" if both and not secrets_agree(cl, sv) else "differ/unknown"),
-                dict(case0, targets=[[k, pos, mask]]),
-                {"config": name, "delivery_index": k, "message": mname, "pos": info["pos"], "field": info["field"], "mask": mask,
+                dict(case0, targets=[tgt]),
+                {"config": name, "delivery_index": k, "message": mname, "pos": info["pos"], "field": info["field"], "alteration": info["how"],
                  "receiver_state": rcv.state(), "sender_state": snd.state(), "sender_complete": both},
             )
             continue
@@ -433,7 +553,7 @@ def a_flip(batch, res):
         if snd.complete():
             res.count("obs_a_unaltered_side_completed")  # e.g. the client, when its own Finished was altered in transit
         res.nontrivial.add("a:%s:%s:%s:%s" % (name, mname, info["field"], outcome))
-        res.sample({"gen": "a_flip", "config": name, "message": mname, "pos": info["pos"], "field": info["field"], "mask": mask, "outcome": outcome}, limit=2)
+        res.sample({"gen": "a_flip", "config": name, "message": mname, "pos": info["pos"], "field": info["field"], "alteration": info["how"], "outcome": outcome}, limit=2)
 
 
 # ------------------------------------------------------------------ (b) negative authentication, TLS level
